@@ -111,7 +111,7 @@ func TestExplore(t *testing.T) {
 	if budget > 0 {
 		deadline = time.Now().Add(time.Duration(budget) * time.Second)
 	}
-	for _, p := range sc.Params(tier) {
+	for _, p := range sc.AllParams(tier) {
 		if only != "" && only != p.Name {
 			continue
 		}
@@ -208,7 +208,7 @@ func TestFreeRun(t *testing.T) {
 	}
 	runs, _ := strconv.Atoi(env("VRUNS", "3"))
 	n := 0
-	for _, p := range sc.Params(env("VTIER", "quick")) {
+	for _, p := range sc.AllParams(env("VTIER", "quick")) {
 		for i := 0; i < runs; i++ {
 			cfg := sc.Cfg
 			cfg.FreeRun = true
@@ -247,7 +247,7 @@ func TestRegressions(t *testing.T) {
 		sc := Registry[c.scen]
 		var prm *Param
 		for _, tier := range []string{"quick", "thorough"} {
-			for _, p := range sc.Params(tier) {
+			for _, p := range sc.AllParams(tier) {
 				if p.Name == c.param && prm == nil {
 					p := p
 					prm = &p
